@@ -86,6 +86,9 @@ PROPS['C01'] = {
 }
 PROPS['C02'] = {
     'units': ['ops', 'eval'],
+    'functions': {'ops': ['compute_valid_domain_for_var', 'eval_bind', 'eval_exists', 'eval_neg', 'eval_jump', 'create_equalizer', 'create_comparator_var_state',
+                          'project_out_hctl_var', 'project_out_bn_vars'],
+                  'eval': ['eval_node', 'eval_hybrid_quantifier', 'restrict_stg_unit_bdd']},
     'level_text': ('Proof that wild-card propositions evaluate to the supplied set and that bind/exists/forall with a domain have the documented '
                    'meaning (bind additionally requires the current state in d; exists/forall range over d\'s states; empty domain: exists false, '
                    'forall true), colour by colour, for every graph and every (colour-dependent, empty, partial) domain set; the three README '
@@ -108,7 +111,7 @@ PROPS['C03'] = {
 }
 PROPS['C12'] = {
     'units': ['ops', 'eval'],
-    'functions': {'eval': ['eval_node', 'is_attractor_pattern', 'is_fixed_point_pattern', 'compute_steady_states']},
+    'functions': {'ops': [], 'eval': ['eval_node', 'is_attractor_pattern', 'is_fixed_point_pattern', 'compute_steady_states']},
     'level_text': ('Proof that the two recognisers accept exactly the patterns (!{x}: AG EF {x}) and (!{x}: AX {x}) (an iff, so near misses are rejected), '
                    'that the steady-state shortcut equals the semantics of !{x}: AX {x} inside every (restricted) unit set and for every variable name, '
                    'and that both early returns of eval_node satisfy its general postcondition. The attractor half relies on the ASSUMED contract of the foreign attractor algorithm.'),
@@ -118,6 +121,7 @@ PROPS['C12'] = {
 }
 PROPS['C18'] = {
     'units': ['ops', 'eval'],
+    'functions': {'ops': ['eval_ex', 'eval_ax', 'eval_eg', 'eval_af', 'eval_au', 'eval_ew', 'eval_neg'], 'eval': ['eval_node', 'compute_steady_states']},
     'level_text': ('Proof that eval_node is correct for an ARBITRARY self-loop set on formulae without EX, AX, AF, EG, AU, EW (precondition '
                    '"steady == steady_set() or loop_insensitive(tree)"), and lemma that the semantics of such formulae does not depend on the '
                    'self-loop set; on networks without steady states both variants receive the same (empty) set.'),
@@ -129,6 +133,7 @@ UNIT_TIMEOUT['eval'] = 1200
 
 PROPS['C11'] = {
     'units': ['ops'],
+    'functions': {'ops': ['eval_neg', 'eval_ex', 'eval_ax', 'eval_eg', 'eval_af', 'eval_eu_saturated', 'eval_ef_saturated', 'eval_ag', 'eval_au', 'eval_ew', 'eval_aw']},
     'level_text': ('Proof, on every graph and for arbitrary argument sets, that each temporal operator function returns exactly its fixed-point '
                    'specification (EU/EF least, EG greatest, AU least fixed point; AX/AF/AG by duality; EX with explicit self-loops), plus proved '
                    'lemmas for the laws named in the statement: unfolding of EF / EG / EU / AU, monotonicity of EX / EU / EG / AU / AX in every '
